@@ -1349,7 +1349,8 @@ out:
 	if (!c)
 	{
 		/* We hit an eof char (0) */
-		if (state != json_tokener_state_finish && saved_state != json_tokener_state_finish)
+		if (tok->depth > 0 ||
+		    (state != json_tokener_state_finish && saved_state != json_tokener_state_finish))
 			tok->err = json_tokener_error_parse_eof;
 	}
 
